@@ -118,27 +118,31 @@ def parseView (w : String) : Option (Option Nat) :=
   else if w.startsWith "ro:" then (w.drop 3).toString.toNat?.map some
   else none
 
+/-- the keying of the block cache the driver runs (the code as it stands); `Props/C10.lean` derives the
+same value from the generated source facts -/
+def mode : CacheKeying := .byHashKey
+
 /-- the process: the store, its indexer partition and the process-wide block cache -/
 def step (s : IState) (line : String) : IState × String :=
   let bad := (s, "bad-op")
   match words line with
   | "iblk" :: h :: hash :: txs =>
     match h.toNat?, ofHex hash, txs.mapM ofHex with
-    | some h, some hash, some txs => (s.apply (.indexBlock h hash txs), "ok")
+    | some h, some hash, some txs => (s.apply mode (.indexBlock h hash txs), "ok")
     | _, _, _ => bad
   | ["iqc", h, bh] =>
     match h.toNat?, ofHex bh with
-    | some h, some bh => (s.apply (.indexQC h bh), "ok")
+    | some h, some bh => (s.apply mode (.indexQC h bh), "ok")
     | _, _ => bad
-  | ["reset"] => if s.st.main.length == 1 then (s.apply .reset, "ok") else bad
-  | ["purge"] => (s.apply .purgeCache, "ok")
+  | ["reset"] => if s.st.main.length == 1 then (s.apply mode .reset, "ok") else bad
+  | ["purge"] => (s.apply mode .purgeCache, "ok")
   | ["gbh", vw, h] =>
     match parseView vw, h.toNat? with
-    | some v, some h => (s.apply (.getBlock v h false), showBlk (getBlockByHeight s.cache (s.view v) h).1)
+    | some v, some h => (s.apply mode (.getBlock v h false), showBlk (getBlockByHeight mode s.cache (s.view v) h).1)
     | _, _ => bad
   | ["gbhh", vw, h] =>
     match parseView vw, h.toNat? with
-    | some v, some h => (s.apply (.getBlock v h true), showBlk (getBlockHeaderByHeight s.cache (s.view v) h).1)
+    | some v, some h => (s.apply mode (.getBlock v h true), showBlk (getBlockHeaderByHeight mode s.cache (s.view v) h).1)
     | _, _ => bad
   | ["gbx", vw, hash] =>
     match parseView vw, ofHex hash with
@@ -147,8 +151,8 @@ def step (s : IState) (line : String) : IState × String :=
   | ["gqc", vw, h] =>
     match parseView vw, h.toNat? with
     | some v, some h =>
-      let r := getQCByHeight s.cache (s.view v) h
-      (s.apply (.getQC v h), "qc " ++ toString r.1.1 ++ " " ++ hexOrDash r.1.2.1 ++ " blk " ++
+      let r := getQCByHeight mode s.cache (s.view v) h
+      (s.apply mode (.getQC v h), "qc " ++ toString r.1.1 ++ " " ++ hexOrDash r.1.2.1 ++ " blk " ++
         toString r.1.2.2.hHeight ++ " " ++ hexOrDash r.1.2.2.hash ++ " " ++ toString r.1.2.2.txs.length)
     | _, _ => bad
   | ["gtx", vw, hash] =>
@@ -162,13 +166,13 @@ def step (s : IState) (line : String) : IState × String :=
       (s, "n " ++ toString ts.length ++ String.join (ts.map fun t => " " ++ hexOrDash t))
     | _, _ => bad
   | ["commit"] =>
-    if s.st.main.length == 1 then let s' := s.apply (.store .commit); (s', "ok " ++ toString s'.st.version) else bad
+    if s.st.main.length == 1 then let s' := s.apply mode (.store .commit); (s', "ok " ++ toString s'.st.version) else bad
   | ["rollback", t] =>
     match t.toNat? with
     | some t =>
       if s.st.main.length == 1 then
         match s.rollback t with
-        | some _ => let s' := s.apply (.store (.rollback t)); (s', "ok " ++ toString s'.st.version)
+        | some _ => let s' := s.apply mode (.store (.rollback t)); (s', "ok " ++ toString s'.st.version)
         | none => (s, "err")
       else bad
     | none => bad
